@@ -24,8 +24,9 @@ import (
 var baseContext apd.Context
 
 func init() {
+	// Keep the unlimited precision of apd.BaseContext: an integer literal
+	// with a multiplier denotes an integer of arbitrary size.
 	baseContext = apd.BaseContext
-	baseContext.Precision = 34
 }
 
 // NumInfo contains information about a parsed numbers.
